@@ -4,9 +4,10 @@ package dbSync
 // Also serves C06 (incremental filter application) and C08 (offset tagging).
 //
 //vf:use tinyredis
+//vf:use cmdstream
 //vf:job C03 quick VF_C03_Parse k=1 cfg=0..9
 //vf:job C03 quick VF_C03_Parse k=2 cfg=0..9
-//vf:job C03 thorough VF_C03_Parse k=3 cfg=0..9
+//vf:job C03 thorough VF_C03_Parse k=3 cfg=0..9 alpha=1
 //vf:job C06 quick VF_C03_Parse k=1 cfg=0..9
 //vf:job C06 quick VF_C03_Parse k=2 cfg=8..9
 //vf:job C06 thorough VF_C03_Parse k=2 cfg=0..9
@@ -14,6 +15,7 @@ package dbSync
 //vf:replayE C03 VF_C03_Parse
 //vf:replayE C06 VF_C03_Parse
 //vf:replayE C08 VF_C03_Parse
+//vf:outside C03 scripts of three commands over the full 14-template alphabet (2 744 × picks per configuration: path budget); the thorough tier runs three commands over a 6-template alphabet (select, set, DEL, multi, exec, EVAL)
 //vf:stub C03 metric.GetMetric: a private Metric object; latencymonitor.CalcLatency: no-op (statistics are outside the property)
 //vf:stub C03 the source connection is a reader over the encoded command bytes that parks once they are consumed (a master that goes idle)
 //vf:assume C03 every script starts with a SELECT (a master announces the database before the first propagated command)
@@ -25,174 +27,15 @@ import (
 	"strings"
 
 	"github.com/alibaba/RedisShake/pkg/redis"
-	conf "github.com/alibaba/RedisShake/redis-shake/configure"
 	"github.com/alibaba/RedisShake/redis-shake/dbSync/slot"
 	"github.com/alibaba/RedisShake/redis-shake/metric"
 )
-
-type vfSrcCmd struct {
-	argv [][]byte // argv[0] = name as sent by the master
-}
 
 var vfMetric = new(metric.Metric)
 
 func vfStubEnv() {
 	vfStub("github.com/alibaba/RedisShake/redis-shake/metric.GetMetric", func(id int) *metric.Metric { return vfMetric })
 	vfStub("github.com/alibaba/RedisShake/redis-shake/dbSync/latencymonitor.CalcLatency", func(cmd string, args [][]byte, id int) {})
-}
-
-// vfTemplate builds the i-th command of the script from a template index
-func vfTemplate(t int) vfSrcCmd {
-	b := func(s string) []byte { return []byte(s) }
-	switch t {
-	case 0:
-		return vfSrcCmd{[][]byte{b("select"), b(strconv.Itoa(vfPick("db", 3)))}}
-	case 1:
-		return vfSrcCmd{[][]byte{b("SELECT"), b(strconv.Itoa(vfPick("db", 3)))}}
-	case 2:
-		return vfSrcCmd{[][]byte{b("set"), vfBytes("key", 2), vfBytes("val", 1)}}
-	case 3:
-		return vfSrcCmd{[][]byte{b("mset"), vfBytes("key", 1), vfBytes("val", 1), vfBytes("key", 1), vfBytes("val", 1)}}
-	case 4:
-		return vfSrcCmd{[][]byte{b("DEL"), vfBytes("key", 1), vfBytes("key", 1)}}
-	case 5:
-		return vfSrcCmd{[][]byte{b("ping")}}
-	case 6:
-		return vfSrcCmd{[][]byte{b("multi")}}
-	case 7:
-		return vfSrcCmd{[][]byte{b("exec")}}
-	case 8:
-		return vfSrcCmd{[][]byte{b("publish"), b("__sentinel__:hello"), vfBytes("val", 1)}}
-	case 9:
-		return vfSrcCmd{[][]byte{b("publish"), vfBytes("chan", 1), vfBytes("val", 1)}}
-	case 10:
-		return vfSrcCmd{[][]byte{b("EVAL"), vfBytes("val", 2), b("0")}}
-	case 11:
-		return vfSrcCmd{[][]byte{b("script"), b("load"), vfBytes("val", 1)}}
-	case 12:
-		return vfSrcCmd{[][]byte{b("opinfo"), vfBytes("val", 1)}}
-	}
-	return vfSrcCmd{[][]byte{b("incrby"), vfBytes("key", 1), b("5")}}
-}
-
-const vfNTemplates = 14
-
-type vfCfg struct {
-	dbWhite, dbBlack     []string
-	keyWhite, keyBlack   []string
-	filterLua            bool
-	targetDB, startDb    int
-}
-
-func vfConfig(cfg int) vfCfg {
-	c := vfCfg{targetDB: -1}
-	switch cfg {
-	case 1:
-		c.dbBlack = []string{"1"}
-	case 2:
-		c.dbWhite = []string{"1", "2"}
-	case 3:
-		c.keyBlack = []string{vfStr("prefix", 1)}
-		c.startDb = 3
-	case 4:
-		c.keyWhite = []string{vfStr("prefix", 1)}
-		c.filterLua = true
-	case 5:
-		c.targetDB = 2
-	case 6:
-		c.targetDB = 1
-		c.dbBlack = []string{"2"}
-		c.filterLua = true
-	case 7:
-		c.targetDB = 0
-		c.startDb = 0
-	case 8: // the fixed target database is itself a filtered source database
-		c.targetDB = 2
-		c.dbBlack = []string{"2"}
-	case 9:
-		c.targetDB = 0
-		c.dbWhite = []string{"1"}
-	}
-	conf.Options.FilterDBWhitelist = c.dbWhite
-	conf.Options.FilterDBBlacklist = c.dbBlack
-	conf.Options.FilterKeyWhitelist = c.keyWhite
-	conf.Options.FilterKeyBlacklist = c.keyBlack
-	conf.Options.FilterLua = c.filterLua
-	conf.Options.FilterSlot = nil
-	conf.Options.TargetDB = c.targetDB
-	conf.Options.Metric = false
-	return c
-}
-
-// ---- specification of the filters (from the property statements)
-func vfDbFiltered(c vfCfg, db int) bool {
-	s := strconv.Itoa(db)
-	if len(c.dbBlack) != 0 {
-		for _, x := range c.dbBlack {
-			if x == s {
-				return true
-			}
-		}
-		return false
-	}
-	if len(c.dbWhite) != 0 {
-		for _, x := range c.dbWhite {
-			if x == s {
-				return false
-			}
-		}
-		return true
-	}
-	return false
-}
-
-func vfKeyPasses(c vfCfg, key []byte) bool {
-	if vfHasPrefix(string(key), "redis-shake-checkpoint") {
-		return false
-	}
-	if len(c.keyBlack) != 0 {
-		return vfNot(vfHasPrefix(string(key), c.keyBlack[0]))
-	}
-	if len(c.keyWhite) != 0 {
-		return vfHasPrefix(string(key), c.keyWhite[0])
-	}
-	return true
-}
-
-// key positions (argv without the name) of the templates that are key-addressed
-func vfKeySpec(name string) (first, last, step int, ok bool) {
-	switch name {
-	case "set", "incrby":
-		return 0, 0, 1, true
-	case "mset":
-		return 0, -1, 2, true
-	case "del":
-		return 0, -1, 1, true
-	}
-	return 0, 0, 0, false
-}
-
-type vfExpect struct {
-	db   int
-	name string
-	args [][]byte
-	off  int64
-}
-
-type readerThenPark struct {
-	data []byte
-	pos  int
-	done chan int
-}
-
-func (r *readerThenPark) Read(p []byte) (int, error) {
-	if r.pos >= len(r.data) {
-		r.done <- 1
-		vfPark()
-	}
-	n := copy(p, r.data[r.pos:])
-	r.pos += n
-	return n, nil
 }
 
 func VF_C03_Parse() {
@@ -212,7 +55,12 @@ func VF_C03_Parse() {
 		if i == 0 {
 			c = vfTemplate(0)
 		} else {
-			c = vfTemplate(vfPick("tmpl", vfNTemplates))
+			if vfParam("alpha", 0) == 1 {
+				// reduced alphabet for longer scripts: select, set, DEL, multi, exec, EVAL
+				c = vfTemplate([]int{0, 2, 4, 6, 7, 10}[vfPick("tmpl", 6)])
+			} else {
+				c = vfTemplate(vfPick("tmpl", vfNTemplates))
+			}
 		}
 		script = append(script, c)
 		enc, err := redis.EncodeToBytes(redis.ChangeArgsToResp(c.argv[0], c.argv[1:]))
@@ -222,64 +70,7 @@ func VF_C03_Parse() {
 		stream = append(stream, enc...)
 		ends = append(ends, int64(len(stream)))
 	}
-	// specification: which commands survive, with which argv, in which database
-	var want []vfExpect
-	cur := 0
-	if cfg.startDb != 0 {
-		cur = cfg.startDb
-	}
-	bypass := false
-	for i, c := range script {
-		name := strings.ToLower(string(c.argv[0]))
-		args := c.argv[1:]
-		if name == "select" {
-			n, _ := strconv.Atoi(string(args[0]))
-			cur = n
-			bypass = vfDbFiltered(cfg, n)
-			continue
-		}
-		if name == "ping" || (name == "publish" && strings.EqualFold(string(args[0]), "__sentinel__:hello")) {
-			continue // don't-care
-		}
-		if name == "multi" || name == "exec" {
-			continue // markers are never applied (checked on the sender side); here: may be forwarded as markers
-		}
-		if bypass || name == "opinfo" {
-			continue
-		}
-		if cfg.filterLua && (name == "eval" || name == "evalsha" || name == "script") {
-			continue
-		}
-		outArgs := args
-		if first, last, step, ok := vfKeySpec(name); ok && (len(cfg.keyBlack) != 0 || len(cfg.keyWhite) != 0) {
-			hi := last
-			if last < 0 {
-				hi = len(args) + last
-				if step == 2 {
-					hi = len(args) - 2
-				}
-			}
-			var kept [][]byte
-			kept = append(kept, args[:first]...)
-			n := 0
-			for p := first; p <= hi; p += step {
-				if vfKeyPasses(cfg, args[p]) {
-					kept = append(kept, args[p:p+step]...)
-					n++
-				}
-			}
-			kept = append(kept, args[hi+step:]...)
-			if n == 0 {
-				continue
-			}
-			outArgs = kept
-		}
-		db := cur
-		if cfg.targetDB != -1 {
-			db = cfg.targetDB
-		}
-		want = append(want, vfExpect{db: db, name: name, args: outArgs, off: start + ends[i]})
-	}
+	want := vfWantOf(cfg, script, ends, start)
 
 	// run the real parser
 	ds := &DbSyncer{id: 0, node: &slot.SyncNode{Source: "s:1"}, sendBuf: make(chan cmdDetail, 4*k+4), checkpointName: "ckpt"}
